@@ -42,7 +42,7 @@ for sid in sorted(os.listdir(SD)):
     meta = {
         "id": sid,
         "property": prop,
-        "round": 8 if "-r8-" in sid else 7 if "-r7-" in sid else 6 if "-r6-" in sid else 5 if "-r5-" in sid else 4 if "-r4-" in sid else 3 if "-r3-" in sid else (2 if "-r2-" in sid else 1),
+        "round": 10 if "-r10-" in sid else 9 if "-r9-" in sid else 8 if "-r8-" in sid else 7 if "-r7-" in sid else 6 if "-r6-" in sid else 5 if "-r5-" in sid else 4 if "-r4-" in sid else 3 if "-r3-" in sid else (2 if "-r2-" in sid else 1),
         "title": title,
         "files_changed": files,
         "breaks": section(readme, "clause", "breaks", "broken"),
